@@ -530,3 +530,91 @@ def g_linear_cache(repo):
 
 
 GROUPS += [("LinearCache", g_linear_cache, ["nflows/transforms/linear.py"])]
+
+
+# ---------------------------------------------------------------- Distribution base (argument contract, batching)
+def g_dist_base(repo):
+    src = Source(repo, "nflows/distributions/base.py")
+    defs = []
+    lp = src.method("Distribution", "log_prob")
+    # if context is not None: ... if inputs.shape[0] != context.shape[0]: raise ValueError
+    found = False
+    for st in ast.walk(lp):
+        if isinstance(st, ast.If) and ast.unparse(st.test) in ("inputs.shape[0] != context.shape[0]",
+                                                                "context.shape[0] != inputs.shape[0]"):
+            r = st.body[0]
+            if isinstance(r, ast.Raise) and isinstance(r.exc, ast.Call) and ast.unparse(r.exc.func) == "ValueError":
+                found = True
+    defs.append(("dist_logprob_checks_rows", "Definition dist_logprob_checks_rows : bool := %s.\n" % ("true" if found else "false")))
+    sm = src.method("Distribution", "sample")
+    body = [s for s in sm.body if not (isinstance(s, ast.Expr) and isinstance(s.value, ast.Constant))]
+
+    def typeerror_guard(st, argname):
+        return (isinstance(st, ast.If) and ast.unparse(st.test) == "not check.is_positive_int(%s)" % argname
+                and len(st.body) == 1 and isinstance(st.body[0], ast.Raise)
+                and isinstance(st.body[0].exc, ast.Call) and ast.unparse(st.body[0].exc.func) == "TypeError")
+    if not typeerror_guard(body[0], "num_samples"):
+        raise Untranslatable("Distribution.sample: first statement must reject non-positive-int num_samples with TypeError", body[0])
+    defs.append(("dist_sample_checks_count", "Definition dist_sample_checks_count : bool := true.\n"))
+    # the batch_size branch
+    br = [s for s in body if isinstance(s, ast.If) and ast.unparse(s.test) == "batch_size is None"]
+    if len(br) != 1 or ast.unparse(br[0].body[0]) != "return self._sample(num_samples, context)":
+        raise Untranslatable("Distribution.sample: expected `if batch_size is None: return self._sample(num_samples, context)`", sm)
+    els = br[0].orelse
+    if not typeerror_guard(els[0], "batch_size"):
+        raise Untranslatable("Distribution.sample: batch_size must be checked with is_positive_int / TypeError", els[0])
+    env = {"num_samples": "n", "batch_size": "bs"}
+    nb = nl = None
+    catdim = None
+    for st in els[1:]:
+        if isinstance(st, ast.Assign) and isinstance(st.targets[0], ast.Name):
+            t = st.targets[0].id
+            if t == "num_batches":
+                nb = nat_expr(st.value, env)
+            elif t == "num_leftover":
+                nl = nat_expr(st.value, env)
+            elif t == "samples":
+                if ast.unparse(st.value) != "[self._sample(batch_size, context) for _ in range(num_batches)]":
+                    raise Untranslatable("Distribution.sample: batch list form", st)
+            else:
+                raise Untranslatable("Distribution.sample: unexpected assignment", st)
+        elif isinstance(st, ast.If):
+            if ast.unparse(st.test) != "num_leftover > 0" or \
+                    ast.unparse(st.body[0]) != "samples.append(self._sample(num_leftover, context))":
+                raise Untranslatable("Distribution.sample: leftover form", st)
+        elif isinstance(st, ast.Return):
+            c = st.value
+            if not (isinstance(c, ast.Call) and ast.unparse(c.func) == "torch.cat" and ast.unparse(c.args[0]) == "samples"):
+                raise Untranslatable("Distribution.sample: expected return torch.cat(samples, dim=...)", st)
+            dimv = None
+            for kw in c.keywords:
+                if kw.arg == "dim":
+                    dimv = kw.value
+            if dimv is None and len(c.args) == 2:
+                dimv = c.args[1]
+            if dimv is None:
+                catdim = "0"
+            elif isinstance(dimv, ast.Constant) and isinstance(dimv.value, int):
+                catdim = str(dimv.value)
+            elif isinstance(dimv, ast.IfExp) and isinstance(dimv.body, ast.Constant) and isinstance(dimv.orelse, ast.Constant):
+                test = ast.unparse(dimv.test)
+                a, b = dimv.body.value, dimv.orelse.value
+                if test == "context is None":
+                    catdim = "(if has_context then %d else %d)" % (b, a)
+                elif test == "context is not None":
+                    catdim = "(if has_context then %d else %d)" % (a, b)
+                else:
+                    raise Untranslatable("Distribution.sample: cat dim condition", dimv)
+            else:
+                raise Untranslatable("Distribution.sample: cat dim form", dimv)
+        else:
+            raise Untranslatable("Distribution.sample: statement form", st)
+    if nb is None or nl is None or catdim is None:
+        raise Untranslatable("Distribution.sample: batching arithmetic not found", sm)
+    defs.append(("dist_num_batches", "Definition dist_num_batches (n bs : nat) : nat := %s.\n" % nb))
+    defs.append(("dist_num_leftover", "Definition dist_num_leftover (n bs : nat) : nat := %s.\n" % nl))
+    defs.append(("dist_cat_dim", "Definition dist_cat_dim (has_context : bool) : nat := %s.\n" % catdim))
+    return defs, "From Coq Require Import Arith.\nLocal Open Scope nat_scope.\n\n"
+
+
+GROUPS += [("DistBase", g_dist_base, ["nflows/distributions/base.py"])]
